@@ -42,6 +42,12 @@ KF5_WITNESS = {
         ["set", ["r", gen.I("kt")], ["v", enc("v1")]],
         ["set", ["r", gen.I("v1")], ["v", enc(42.0)]],
     ]}
+KF6_WITNESS = {
+    "ops": [
+        ["set", ["r", gen.I("t0")], ["t", ["call", "tot", [["ref", ["r", gen.I("d")]]], []]]],
+        ["knob", "K1", ["r", gen.I("v0")], [enc(1.0)], [["r", gen.I("d"), gen.I("g")]]],
+        ["set", ["r", gen.I("v0")], ["v", enc(5.0)]],
+    ]}
 
 
 _R = lambda *steps: ["r"] + [gen.I(x) if not (isinstance(x, str) and x.startswith(".")) else gen.A(x[1:]) for x in steps]
@@ -87,11 +93,18 @@ def classify(failure, op, ls, shadow):
         texts = [m[0] for m in failure["mismatches"]]
         if kf.is_open("KF5", ID) and kf.kf5(shadow, op, texts):
             return kf.known("KF5")
+        if kf.is_open("KF6", ID) and kf.kf6(shadow, failure["run_order"], texts):
+            return kf.known("KF6")
         if kf.is_open("KF1", ID):
             ok, why, inv = kf.kf1(ls.runner.mgr, failure["run_order"], shadow, ls.runner)
             failure["kf1_analysis"] = why
             if ok:
                 return kf.known("KF1")
+    if failure["kind"] == "exception" and kf.is_open("KF1", ID) and op[0] in ("set", "iop"):
+        ok, why, inv = kf.kf1_premature(ls.runner.mgr, failure["run_order"], shadow, ls.runner, op[1])
+        failure["kf1_analysis"] = why
+        if ok:
+            return kf.known("KF1", "a task evaluated before its producer raised on the stale input")
     return None
 
 
@@ -330,6 +343,8 @@ def run_shard(spec):
             run_witness("KF1", KF1_WITNESS, "KF1", known, counters, violations)
         if kf.is_open("KF5", ID):
             run_witness("KF5", KF5_WITNESS, "KF5", known, counters, violations)
+        if kf.is_open("KF6", ID):
+            run_witness("KF6", KF6_WITNESS, "KF6", known, counters, violations)
     n = spec.get("histories", 0)
     for h in range(n):
         mgrmon.set_shuffle_rng(random.Random(rng.random()) if rng.random() < 0.7 else None)
